@@ -432,8 +432,10 @@ int EGLPNUM_TYPENAME_ILLraw_add_sos_member (
 			lp->sos_weight_size += 1000;
 			if (lp->sos_weight_size < lp->nsos_member + 1)
 				lp->sos_weight_size = lp->nsos_member + 1;
-			lp->sos_weight = EGrealloc (lp->sos_weight,
-																	lp->sos_weight_size * sizeof (double));
+			/* numbers of the working type: sized, initialised and, in
+			 * ILLfree_rawlpdata, freed as an array of them */
+			EGLPNUM_TYPENAME_EGlpNumReallocArray (&(lp->sos_weight),
+																						 lp->sos_weight_size);
 			//if (ILLutil_reallocrus_scale ((void **) &lp->sos_weight,
 			//                              &lp->sos_weight_size,
 			//                              lp->nsos_member + 1, 1.3, sizeof (double)))
